@@ -2,7 +2,16 @@
    ExtrOcamlBasic only: bool, option, unit, list, prod, sumbool map to OCaml's;
    nat, positive, N, Z stay inductive.  No Extract Constant. *)
 From Coq Require Import Extraction ExtrOcamlBasic.
-From JP Require Import Base Json Fluent ListSpec.
+From JP Require Import Base Json PyStr Fluent ListSpec Pointer RelPointer Rfc6901 RelPtrDraft PointerDomain.
 Extraction Language OCaml.
 Extraction "extract/model.ml"
-  Fluent.observe ListSpec.sobserve.
+  Fluent.observe ListSpec.sobserve
+  Json.py_eq Json.json_eq Json.wf_json Json.node_at
+  Pointer.parse Pointer.make Pointer.encode Pointer.resolve Pointer.resolve_default Pointer.exists_
+  Pointer.resolve_parent Pointer.ptr_eqb Pointer.is_relative_to Pointer.parent Pointer.truediv
+  Pointer.join Pointer.from_parts Pointer.tokens
+  RelPointer.rel_parse RelPointer.to_text RelPointer.to_
+  Rfc6901.rfc6901_syntax Rfc6901.rfc_tokens Rfc6901.rfc_spell Rfc6901.rfc_eval Rfc6901.spell_loc Rfc6901.rfc_step
+  RelPtrDraft.draft_parse RelPtrDraft.draft_apply RelPtrDraft.offset_applicable
+  PointerDomain.no_backslash PointerDomain.outside_extensions PointerDomain.tokens_within_limits
+  PointerDomain.no_leading_blank.
